@@ -29,7 +29,7 @@ type Contract struct {
 	Ensures  []Clause
 	Modifies []Clause
 	Loops    map[int]*LoopSpec
-	Nowrap, Trusted, Pure, NilRecv bool
+	Nowrap, Trusted, Pure, NilRecv, NoNil bool
 	Props    []string
 	File     string
 	Line     int
@@ -67,10 +67,31 @@ type ContractSet struct {
 	Errors  []string
 	Hooks   []*Hook
 	UFs     map[string]ufInfo
+	Structs []*Structural
+}
+
+// Structural is an obligation discharged on the SSA of the package (store
+// sets, call sites, references, allocation sites), not by SMT.
+type Structural struct {
+	Props   []string
+	Kind    string   // stores, calls, refs, allocs
+	Target  string   // Type.field, callee name, function name, type name
+	In      []string // functions (local names) allowed to contain it
+	Value   string   // for stores: required constant value ("" = any)
+	PkgPath string
+	Text    string
+	File    string
+	Line    int
 }
 
 type Hook struct {
 	Pattern string // callee short name pattern
+	Kind    string // call, go, store
+	After   bool   // updates run after the call with results bound
+	Results []string
+	IsGuard bool
+	PkgPath string
+	In      []string // enclosing functions (local names) the hook is limited to; empty = everywhere
 	Params  []string
 	When    *Clause
 	Updates []GhostUpdate
@@ -91,7 +112,7 @@ func newContractSet() *ContractSet {
 var clauseKeywords = map[string]bool{"func": true, "extern": true, "spec": true, "lemma": true, "axiom": true, "objinv": true,
 	"requires": true, "ensures": true, "modifies": true, "loop": true, "invariant": true, "decreases": true, "nowrap": true,
 	"trusted": true, "pure": true, "nilrecv": true, "props": true, "fnfield": true, "iface": true, "ghost": true, "hook": true, "guard": true,
-	"update": true, "when": true, "uf": true, "stable": true, "monitor": true, "unroll": true}
+	"update": true, "when": true, "uf": true, "stable": true, "monitor": true, "unroll": true, "nonil": true, "structural": true}
 
 // parseContractLines parses the //@ lines of one file.
 func (cs *ContractSet) parseLines(lines []string, pkgPath, pkgName, file string, startLine []int) {
@@ -170,6 +191,39 @@ func (cs *ContractSet) parseLines(lines []string, pkgPath, pkgName, file string,
 			cur.Pure = true
 		case "nilrecv":
 			cur.NilRecv = true
+		case "nonil":
+			cur.NoNil = true
+		case "structural":
+			// structural <props...>: <kind> <target> in <f1> | <f2> [value <const>]
+			i := strings.Index(rest, ":")
+			if i < 0 {
+				errf(l, "structural: missing ':'")
+				continue
+			}
+			sd := &Structural{Props: strings.Fields(rest[:i]), PkgPath: pkgPath, Text: l.text, File: file, Line: l.line}
+			body := strings.TrimSpace(rest[i+1:])
+			if j := strings.Index(body, " value "); j >= 0 {
+				sd.Value = strings.TrimSpace(body[j+7:])
+				body = strings.TrimSpace(body[:j])
+			}
+			j := strings.Index(body, " in ")
+			if j < 0 {
+				errf(l, "structural: missing 'in'")
+				continue
+			}
+			head := strings.Fields(body[:j])
+			if len(head) != 2 {
+				errf(l, "structural: expected '<kind> <target> in ...'")
+				continue
+			}
+			sd.Kind, sd.Target = head[0], head[1]
+			for _, f := range strings.Split(body[j+4:], "|") {
+				if f = strings.TrimSpace(f); f != "" {
+					sd.In = append(sd.In, f)
+				}
+			}
+			cs.Structs = append(cs.Structs, sd)
+			cur, curLoop, curHook = nil, nil, nil
 		case "requires":
 			if curHook != nil {
 				if c, ok := mk(l, rest); ok {
@@ -267,13 +321,31 @@ func (cs *ContractSet) parseLines(lines []string, pkgPath, pkgName, file string,
 		case "ghost":
 			f := strings.Fields(rest) // var NAME SORT
 			if len(f) >= 3 {
-				cs.Ghosts[f[1]] = f[2]
+				cs.Ghosts[f[1]] = strings.Join(f[2:], " ")
 			}
 		case "hook", "guard":
-			// hook call <pattern>(params)   /  guard call <pattern>(params)
-			_, r2 := splitKw(rest) // "call"
-			name, params, _ := parseHeader(r2)
-			curHook = &Hook{Pattern: name, Params: params, Text: l.text}
+			// hook [after] call|go|store <pattern>(params) [(results)]  /  guard call|go|store <pattern>(params)
+			k2, r2 := splitKw(rest)
+			after := false
+			if k2 == "after" {
+				after = true
+				k2, r2 = splitKw(r2)
+			}
+			if k2 != "call" && k2 != "go" && k2 != "store" {
+				errf(l, "hook/guard: expected call, go or store, got %q", k2)
+				continue
+			}
+			var scope []string
+			if j := strings.LastIndex(r2, ") in "); j >= 0 {
+				for _, f := range strings.Split(r2[j+5:], "|") {
+					if f = strings.TrimSpace(f); f != "" {
+						scope = append(scope, f)
+					}
+				}
+				r2 = r2[:j+1]
+			}
+			name, params, results := parseHeader(r2)
+			curHook = &Hook{Pattern: name, Params: params, Results: results, Text: l.text, Kind: k2, After: after, IsGuard: kw == "guard", PkgPath: pkgPath, In: scope}
 			cs.Hooks = append(cs.Hooks, curHook)
 			cur, curLoop = nil, nil
 		case "when":
